@@ -342,7 +342,7 @@ class Translator:
             struct_defs[sname] = self.record(prefix + "_" + sname, sdef, sec_name, top_types, all_secs, out, meta)
         scope_types = {k: v["type"] for k, v in rec["retrievers"].items()}
         ctx = (sec_name, scope_types, top_types, all_secs)
-        fields, defaults, fmeta = [], [], []
+        fields, defaults, bases, fmeta = [], [], [], []
         items = list(rec["retrievers"].items())
         for idx, (name, r) in enumerate(items):
             if name == "__END_OF_FILE_MARK__":
@@ -355,10 +355,16 @@ class Translator:
             cnt = self.count(r, ctx)
             fields.append(f"  ({self.N(name)}, field {it} {cnt} {self.is_list(r)} {'true' if is_struct else 'false'})")
             defaults.append("  " + self.default(name, r))
+            m = re.fullmatch(r"\(\.static \(?(-?\d+)\)?\)", cnt)
+            if is_struct and m and int(m.group(1)) > 0:
+                bases.append(f"  (.list (List.replicate {int(m.group(1))} (.strct b_{prefix}_{r['type'][7:]})))")
+            else:
+                bases.append("  " + self.default(name, r))
             fmeta.append({"name": name, "type": r["type"], "struct": r["type"][7:] if is_struct else None})
         dn = f"f_{prefix}"
         out.append(f"def {dn} : List (Nat × FCodec) := [\n" + ",\n".join(fields) + "]\n")
         out.append(f"def d_{prefix} : List Val := [\n" + ",\n".join(defaults) + "]\n")
+        out.append(f"def b_{prefix} : List Val := [\n" + ",\n".join(bases) + "]\n")
         meta[prefix] = fmeta
         return dn
 
@@ -414,7 +420,7 @@ def generate(repo, outdir_lean, outdir_json, write_if_changed):
         src = (f"import Aoe.Model.Codec\n/-! GENERATED by tools/gen_structure.py from versions/DE/v{v}/structure.json – do not edit. -/\n"
                f"set_option maxRecDepth 100000\nnamespace Aoe.Generated.{mod}\nopen Aoe Aoe.Codec\n\n" + "\n".join(out) +
                f"\ndef table : Table := {{\n  header := {{ name := {names('FileHeader')}, fields := {defs['FileHeader']} }},\n  hasEof := {'true' if has_eof else 'false'},\n  body := [\n{body}] }}\n\n"
-               f"def defaults : List (List Val) := [{', '.join('d_' + sn for sn in secs)}]\n\nend Aoe.Generated.{mod}\n")
+               f"/-- defaults of the top-level sections with statically repeated structs expanded (base-file synthesis only) -/\ndef defaults : List (List Val) := [{', '.join('b_' + sn for sn in secs)}]\n\nend Aoe.Generated.{mod}\n")
         fn = os.path.join(outdir_lean, mod + ".lean")
         write_if_changed(fn, src); files.append(fn)
         versions.append((v, mod))
@@ -435,6 +441,17 @@ def generate(repo, outdir_lean, outdir_json, write_if_changed):
            "\n  else none\n"
            f"def versions : List String := [{', '.join(chr(34) + v + chr(34) for v, _ in versions)}]\nend Aoe.Generated\n")
     fn = os.path.join(outdir_lean, "Tables.lean"); write_if_changed(fn, src); files.append(fn)
+    laws = ["import Aoe.Props.Codec", "import Aoe.Generated.Tables",
+            "/-! GENERATED by tools/gen_structure.py – the file-level round-trip law instantiated at every regenerated table.",
+            "If a `structure.json` changes in a way the combinators cannot express, the table (or this file) stops compiling. -/",
+            "namespace Aoe.Generated.Laws", "open Aoe Aoe.Codec", ""]
+    for v, m in versions:
+        laws.append(f"theorem roundtrip_{m} (tr : Tree) (hb bb z : Bytes) (hc : Consistent {m}.table tr)\n"
+                    f"    (h1 : serializeHeader {m}.table tr = .ok hb) (h2 : serializeBody {m}.table tr = .ok bb) :\n"
+                    f"    parseHeader {m}.table (hb ++ z) = .ok (tr.header, z) ∧ parseBody {m}.table tr.header bb = .ok (tr.body, .list [], []) :=\n"
+                    f"  Aoe.Props.Codec.parse_serialize {m}.table tr hb bb z hc h1 h2\n")
+    laws.append("end Aoe.Generated.Laws\n")
+    fn = os.path.join(outdir_lean, "Laws.lean"); write_if_changed(fn, "\n".join(laws)); files.append(fn)
     os.makedirs(outdir_json, exist_ok=True)
     fn = os.path.join(outdir_json, "structure.json")
     write_if_changed(fn, json.dumps({"names": [k for k, _ in inv], "no_trail": no_trail, "versions": allmeta}, indent=0))
